@@ -661,6 +661,20 @@ impl<'a> Ctx<'a> {
         self.plain_result(mi, "withdraw", c);
     }
 
+    fn report_fault(&mut self, mi: usize) {
+        let mid = self.w.miners[mi].id;
+        let reporter = self.w.accts[5];
+        let e = self.epoch();
+        self.w.v.consensus_fault.replace(Some(fvm_shared::consensus::ConsensusFault {
+            target: mid, epoch: e - 1, fault_type: fvm_shared::consensus::ConsensusFaultType::DoubleForkMining,
+        }));
+        let p = fil_actor_miner::ReportConsensusFaultParams { header1: vec![1], header2: vec![2], header_extra: vec![] };
+        self.w.v.take_invocations();
+        let res = exec(&self.w.v, &reporter, &mid, &TokenAmount::zero(), MinerMethod::ReportConsensusFault as u64, Some(p));
+        self.w.v.consensus_fault.replace(None);
+        self.plain_result(mi, "report_consensus_fault", code(&res));
+    }
+
     fn fund(&mut self, mi: usize) {
         let (mid, owner) = (self.w.miners[mi].id, self.w.miners[mi].owner);
         let amt = TokenAmount::from_whole(self.r.range(50, 3000));
@@ -1147,6 +1161,9 @@ fn run_case(cfg: &Cfg, stats: &mut Stats, stop_at: Option<usize>) -> (Case, Vec<
     }
     let budget = v.policy.addressed_sectors_max;
     let padded = match scen { "f1" | "double" => false, "random" => r.chance(80), _ => true };
+    let mut stop_phase = 0u32; // scenario "stop": 0 precommitted, 1 proven, 2 terminated, 3 funds burnt, 4 cron stopped, 5 restarted
+    let mut stopped_epoch = 0i64;
+    let mut faults_reported = 0;
     let accts = create_accounts(&v, 6, &TokenAmount::from_whole(200_000));
     let e0 = match scen { "f7" | "f1" | "f2" | "double" => r.range(1, 3000), _ => if r.chance(30) { r.range(1, 20) } else { r.range(1, 9000) } };
     v.set_epoch(e0);
@@ -1158,12 +1175,13 @@ fn run_case(cfg: &Cfg, stats: &mut Stats, stop_at: Option<usize>) -> (Case, Vec<
     cx.bump(if padded { "cases_padded" } else { "cases_unpadded" }, 1);
     if tweak { cx.bump("cases_policy_tweaked", 1); }
     cx.create_miner();
-    let len = match scen { "f1" | "drain" | "double" => cfg.len.max(3 * PERIOD as usize + 600), "f7" => cfg.len.max(PERIOD as usize + 400), "f2" => cfg.len.min(200), _ => cfg.len };
+    let len = match scen { "f1" | "drain" | "double" => cfg.len.max(3 * PERIOD as usize + 600), "f7" => cfg.len.max(PERIOD as usize + 400), "stop" => cfg.len.max(3000), "f2" => cfg.len.min(200), _ => cfg.len };
     // scripted openings of the directed scenarios
     let mut script_at: BTreeMap<i64, &str> = BTreeMap::new();
     match scen {
         "f1" | "double" => { script_at.insert(e0 + 2, "precommit"); }
         "f7" => { script_at.insert(e0 + PERIOD + 70 + cx.r.range(0, 200), "precommit"); }
+        "stop" => { script_at.insert(e0 + 2, "precommit"); }
         "drain" => {
             script_at.insert(e0 + 2, "precommit5");
             script_at.insert(e0 + 160, "provecommit");
@@ -1178,6 +1196,21 @@ fn run_case(cfg: &Cfg, stats: &mut Stats, stop_at: Option<usize>) -> (Case, Vec<
                 "precommit" => cx.precommit(0, 1),
                 "precommit5" => { cx.w.miners[0].diligent = false; cx.precommit(0, 5) }
                 "provecommit" => cx.provecommit(0),
+                _ => {}
+            }
+        }
+        if scen == "stop" && !cx.w.miners.is_empty() {
+            // drive all obligations of miner 0 to zero so that its cron stops, then restart it
+            let ms = cx.snap.miners[&cx.w.miners[0].idn].clone();
+            match stop_phase {
+                0 => { if !cx.w.miners[0].pending.is_empty() { cx.provecommit(0); } if !cx.w.miners[0].proven.is_empty() { stop_phase = 1; } }
+                1 => { if e % 7 == 0 { cx.terminate(0); } if cx.w.miners[0].proven.is_empty() && ms.et == 0 { stop_phase = 2; } }
+                2 => {
+                    if ms.locked.is_zero() { stop_phase = 3; }
+                    else if faults_reported < 4 && e % 11 == 0 { cx.report_fault(0); faults_reported += 1; }
+                }
+                3 => { if !ms.active { stop_phase = 4; stopped_epoch = e; cx.bump("scenario_stop_cron_stopped", 1); } }
+                4 => { if e > stopped_epoch + 1000 && e % 13 == 0 { cx.precommit(0, 1); if cx.snap.miners[&cx.w.miners[0].idn].active { stop_phase = 5; cx.bump("scenario_stop_cron_restarted", 1); } } }
                 _ => {}
             }
         }
@@ -1276,7 +1309,7 @@ fn main() {
             }
         }
         for k in 0..a.cases {
-            let scenario = match k { 0 => "f2", 1 => "f1", 2 => "f7", 3 => "drain", 4 => "idle", _ => "random" };
+            let scenario = match k { 0 => "f2", 1 => "f1", 2 => "f7", 3 => "drain", 4 => "idle", 5 => "stop", _ => "random" };
             let cfg = Cfg { seed: a.seed, case: k as u64, len: a.len, scenario: scenario.to_string() };
             run(&cfg, None, &mut cw, &mut stats);
         }
